@@ -113,7 +113,11 @@ class HashFileDB(ObjectDB):
                 if verify:
                     self.check(o, check_hash=True)
                 self.protect(cache_path)
-            except (ObjectFormatError, FileNotFoundError):
+            except ObjectFormatError as exc:
+                # the object was dropped by verification: it did not arrive
+                if on_error is not None:
+                    on_error(o, exc)
+            except FileNotFoundError:
                 pass
 
         self.state.save_many(
